@@ -27,11 +27,9 @@ func c22Consistent(w *svWorld, s *svSession, me, other *svPeer, label string) {
 // the bound; at quiescence each live client has been told the current state, i.e. every re-open
 // was announced before anything of the new epoch could be accepted.
 func VerifC22Announce() {
-	p := 1
-	if rt.Tier() > 0 {
-		p = 2
-	}
-	rt.SchedBound(p, false)
+	// run-to-block schedules: whenever several goroutines can run, every choice of the next one is
+	// explored (no preemption inside a run; all shared state is under the server mutex)
+	rt.SchedBound(0, true)
 	rt.KnownFinding("C22-second-attacher-not-told", true)
 	rt.KnownFinding("C22-reopen-not-announced", true)
 	w := svNewWorld()
@@ -71,24 +69,58 @@ func VerifC22Announce() {
 	rt.Reach("end")
 }
 
-// VerifC22Stale: a message stored under one epoch is never delivered after the epoch changed, and
-// a submission carrying an old epoch is dropped silently (not an error) while a newer one is.
+// VerifC22Stale: after the partner was replaced (epoch change), a submission carrying any epoch value is
+// delivered to the new partner only if it names the current epoch; one naming an older epoch is dropped
+// without ending the submitter's call, and by then the submitter has been told the epoch it is stale
+// against; a message accepted before the change is not delivered after it.
 func VerifC22Stale() {
+	rt.SchedBound(0, false)
 	w := svNewWorld()
 	A, B := svNewPeer(1), svNewPeer(60)
 	sa := w.open("A", A, B)
 	sb := w.open("B", B, A)
 	rt.Quiesce()
-	e1, _, _ := sa.lastAnnounced()
-	// B's client goes away and a new call of B attaches: epoch changes
+	e1, open1, _ := sa.lastAnnounced()
+	rt.Assert("A was told the first epoch", open1)
+	// optionally A has a message accepted under the first epoch that B's write loop has not transmitted
+	early := rt.Choose("acceptedBeforeChange", 2) == 1
+	if early {
+		sa.reqCh <- &signaling.SessionRequest{SessionSeqno: e1, Body: &signaling.SessionRequest_SendMsg{SendMsg: svMsg(A, 4, 1)}}
+	}
+	// B's client goes away and a new call of B attaches: the epoch changes (twice)
 	sb.cancel()
-	rt.Quiesce()
+	if rt.Choose("settleBetween", 2) == 1 {
+		rt.Quiesce()
+	}
 	sb2 := w.open("B2", B, A)
 	rt.Quiesce()
-	// A, not yet aware, submits under the old epoch
-	sa.reqCh <- &signaling.SessionRequest{SessionSeqno: e1, Body: &signaling.SessionRequest_SendMsg{SendMsg: svMsg(A, 5, 1)}}
+	e2, open2, _ := sa.lastAnnounced()
+	rt.Assert("A was told the new epoch", open2 && e2 > e1)
+	if early {
+		late := 0
+		for _, m := range sb2.received() {
+			if m.GetSeqno() == 1 {
+				late++
+			}
+		}
+		rt.Assert("a message accepted before the epoch change is not delivered to the new partner call", late == 0)
+	}
+	n0 := len(sb2.received())
+	e := rt.U64("submissionEpoch")
+	sa.reqCh <- &signaling.SessionRequest{SessionSeqno: e, Body: &signaling.SessionRequest_SendMsg{SendMsg: svMsg(A, 5, 2)}}
 	rt.Quiesce()
-	rt.Assert("a submission under a stale epoch is not delivered to the new partner", len(sb2.received()) == 0)
-	rt.Assert("a stale submission does not end the submitter's call", !sa.done)
+	got := len(sb2.received()) - n0
+	if e == e2 {
+		rt.Reach("current epoch")
+		rt.Assert("a submission under the current epoch is delivered", got == 1)
+	} else {
+		rt.Reach("other epoch")
+		rt.Assert("a submission under another epoch is not delivered to the partner", got == 0)
+		if e < e2 {
+			rt.Assert("a stale submission does not end the submitter's call", !sa.done)
+		} else {
+			rt.Assert("a future epoch is an error", sa.done && sa.err != nil)
+		}
+	}
 	rt.Reach("end")
 }
